@@ -130,14 +130,22 @@ func (e *Engine) obligation(c *term.T, label string, auto bool) {
 	if e.spec != nil {
 		c = term.Implies(e.spec, c)
 	}
+	rewritten := false
 	if !c.IsConst() {
+		c0 := c
 		c = term.RewriteCond(c)
+		rewritten = c != c0
 	}
 	if e.replaying() {
 		// already decided by the parent path under the same path condition
 		return
 	}
 	st := e.res.ob(label, auto)
+	if rewritten && c.IsTrue() {
+		// closed by the affine / injective-hash rewriting of the term layer
+		st.ByANF++
+		return
+	}
 	if st.Violated >= 2 && !c.IsTrue() {
 		// this obligation already has counterexamples: do not spend solver time on more of the same
 		st.Skipped++
@@ -349,6 +357,7 @@ func (e *Engine) runPath(fn *ssa.Function, prefix []uint64, base Options) {
 	e.foot = map[int]*footprint{}
 	e.opt = base
 	e.wgAdd = 0
+	e.wgSym = nil
 	e.mapOrder = nil
 	e.mapOrderN = 0
 	e.spec = nil
